@@ -52,6 +52,14 @@ func (m *OAuthResourceMetadata) Validate() error {
 	if m.Resource == "" {
 		return fmt.Errorf("oauth resource metadata: resource is required")
 	}
+	// The resource (and the well-known URL derived from it) travels inside a
+	// quoted auth-param of WWW-Authenticate. A double quote or a backslash
+	// would end or escape that quoted string — letting the rest of the resource
+	// be read as further parameters — and a control character cannot go in a
+	// header at all. None of them is a valid URI character unescaped.
+	if i := strings.IndexFunc(m.Resource, func(r rune) bool { return r == '"' || r == '\\' || r < 0x20 || r == 0x7f }); i >= 0 {
+		return fmt.Errorf("oauth resource metadata: resource contains %q, which must be percent-encoded in a URI", m.Resource[i])
+	}
 	if len(m.AuthorizationServers) == 0 {
 		return fmt.Errorf("oauth resource metadata: authorization_servers is required")
 	}
